@@ -40,3 +40,6 @@ Definition np_backend_ok (r : nbrow) : bool :=
 Definition np_agree_on (names : list name) : bool :=
   forallb (fun r => if mem_name (row_name r) names then np_agree r else true) np_tab.
 Definition np_count_returning (r : nbrow) : bool := let '(_, np, py) := r in returns np && returns py.
+Definition np_agree_fam (f : fam) : bool :=
+  forallb (fun r => if fam_eqb (row_fam r) f then np_agree r else true) np_tab.
+Definition np_count_fam (f : fam) : nat := count (fun r => fam_eqb (row_fam r) f && np_count_returning r) np_tab.
